@@ -129,6 +129,11 @@ func (p *projSpec) applySpecEdit(op *opSpec) bool {
 		}
 	case "flag-arg":
 		p.FlagArg = fmt.Sprintf("a%d", op.N)
+	case "bump-req":
+		// the root's dawn.toml requires another version of a project (upgrade or downgrade)
+		if e, err := strconv.Atoi(op.Item); err == nil && e >= 0 && e < len(p.Exts) && p.Exts[e].Sel >= 0 {
+			p.Exts[e].Sel = ((op.N % len(extVersions)) + len(extVersions)) % len(extVersions)
+		}
 	case "edit-source":
 		if _, ok := p.Files[op.Path]; ok {
 			p.Files[op.Path] = fmt.Sprintf("content of %s v%d\n", filepath.Base(op.Path), op.N)
@@ -439,6 +444,18 @@ func (p *projSpec) applyDiskEdit(root string, op *opSpec) {
 // genSemanticEdit returns an edit that changes an input of at least one target, if possible.
 func genSemanticEdit(r *rand.Rand, p *projSpec, serial int) *opSpec {
 	for try := 0; try < 8; try++ {
+		if len(p.Exts) > 0 && r.IntN(7) == 0 {
+			var direct []int
+			for e := range p.Exts {
+				if p.Exts[e].Sel >= 0 {
+					direct = append(direct, e)
+				}
+			}
+			if len(direct) > 0 {
+				e := direct[r.IntN(len(direct))]
+				return &opSpec{Op: "bump-req", Item: strconv.Itoa(e), N: p.Exts[e].Sel + 1 + r.IntN(len(extVersions)-1)}
+			}
+		}
 		switch r.IntN(10) {
 		case 0, 1, 2, 3:
 			items := p.semanticItems()
@@ -563,6 +580,10 @@ func genNoopEdit(r *rand.Rand, p *projSpec, label string, serial int) *opSpec {
 	}
 	sort.Strings(files)
 	for try := 0; try < 10; try++ {
+		if len(p.Exts) > 0 && r.IntN(8) == 0 {
+			// the module cache disappears (it is a cache): everything is fetched again
+			return &opSpec{Op: "wipe-module-cache"}
+		}
 		switch r.IntN(9) {
 		case 0:
 			return &opSpec{Op: "nop"}
